@@ -263,6 +263,7 @@ theorem obs_offerLive {O : Oracle} {c : Conf} {s : State} {op : Op} (hpos : 0 < 
   | sleep => rfl
   | restart => rfl
   | reorder => rfl
+  | resetLeases => rfl
 
 /-- The model meets every clause about addresses and clients, on its own observations. -/
 theorem specCore_step {O : Oracle} {c : Conf} {s : State} {op : Op} (hc : validate c = true) (hpos : 0 < c.start)
